@@ -56,7 +56,7 @@ func DrawFunctional(rt *rapid.T, o FuncOpt) *Subject {
 			if rapid.IntRange(0, 2).Draw(rt, "share-name") == 0 {
 				share = rapid.IntRange(0, 3).Draw(rt, "share-pos")
 			}
-			addPlumb(p, used, s, sig, id, share)
+			addPlumb(p, used, s, sig, id, share, rapid.IntRange(0, 2).Draw(rt, "twin-site") == 0)
 		case "mem":
 			sig := env.DrawSig(rt, 0, 3, 3, []string{"named", "unnamed"})
 			for i := range sig.Params {
@@ -122,8 +122,8 @@ func (s *Subject) newFuncEntry(id string, sig *progen.Sig) *Entry {
 }
 
 // AddPlumb emits the curry/flip/apply/uncurry/tuple wrappers for a signature (exported for C01's generator).
-func AddPlumb(p *progen.Prog, used progen.Used, s *Subject, sig *progen.Sig, id string, share int) {
-	addPlumb(p, used, s, sig, id, share)
+func AddPlumb(p *progen.Prog, used progen.Used, s *Subject, sig *progen.Sig, id string, share int, twin bool) {
+	addPlumb(p, used, s, sig, id, share, twin)
 }
 
 // AddErrorForms emits one drawn error-propagating form (exported for C01's generator).
@@ -131,7 +131,7 @@ func AddErrorForms(rt *rapid.T, env *progen.Env, p *progen.Prog, used progen.Use
 	addErrorForms(rt, env, p, used, s, id, o)
 }
 
-func addPlumb(p *progen.Prog, used progen.Used, s *Subject, sig *progen.Sig, id string, share int) {
+func addPlumb(p *progen.Prog, used progen.Used, s *Subject, sig *progen.Sig, id string, share int, twinSite bool) {
 	e := s.newFuncEntry(id, sig)
 	ft := sig.FuncType(p.T)
 	n := len(sig.Params)
@@ -187,6 +187,36 @@ func addPlumb(p *progen.Prog, used progen.Used, s *Subject, sig *progen.Sig, id 
 		}
 		p.Add("func Tuple%s(%s) any {\n\treturn deriveTuple%s(%s)\n}\n", id, strings.Join(ps, ", "), id, strings.Join(as, ", "))
 		e.Funcs["tuple"] = "Tuple" + id
+	}
+	// a second call site of the same derived functions for a function of the same type whose parameters are
+	// named differently (the names rotated by one): one generated function has to serve both
+	if twinSite && sig.Mode != "unnamed" && n >= 2 {
+		twin := &progen.Sig{Results: sig.Results, ResNames: sig.ResNames, Mode: sig.Mode}
+		for i, pa := range sig.Params {
+			twin.Params = append(twin.Params, progen.Param{Name: sig.Params[(i+1)%n].Name, Type: pa.Type})
+		}
+		same := true
+		for i := range twin.Params {
+			if twin.Params[i].Name != sig.Params[i].Name {
+				same = false
+			}
+		}
+		if !same {
+			e2 := s.newFuncEntry(id+"b", twin)
+			for k, v := range e.Tags {
+				if _, ok := e2.Tags[k]; !ok {
+					e2.Tags[k] = v
+				}
+			}
+			e2.Tags["twin"] = "1"
+			tft := twin.FuncType(p.T)
+			p.Add("func Curry%sb(f %s) any {\n\treturn deriveCurry%s(f)\n}\n", id, tft, id)
+			e2.Funcs["curry"] = "Curry" + id + "b"
+			p.Add("func Flip%sb(f %s) any {\n\treturn deriveFlip%s(f)\n}\n", id, tft, id)
+			e2.Funcs["flip"] = "Flip" + id + "b"
+			p.Add("func Apply%sb(f %s, last %s) any {\n\treturn deriveApply%s(f, last)\n}\n", id, tft, p.T(last), id)
+			e2.Funcs["apply"] = "Apply" + id + "b"
+		}
 	}
 }
 
